@@ -139,7 +139,10 @@ ASBUILT = {
   type, wrong / missing valve element, inconsistent set-points, malformed geodata, uncontrollable pressure control; in 35 % of
   the cases an invalid call comes *before* the first valid one (the component table does not exist yet). Whole-net
   fingerprints before / after every call. Documented defaults parsed from the docstrings. Label columns that are simply not
-  set (None / NaN / '') compare equal between bulk and single creation. **Found and fixed:** `create_pipe(text_k=0)`, junction
+  set (None / NaN / '') compare equal between bulk and single creation. Per-element arguments of the bulk call arrive as list,
+  ndarray or pandas Series (labels coinciding with the new rows or not; added after seeded change R2_C16). **Found and fixed:**
+  Series arguments aligned by label in `create_ext_grids` / `create_pressure_controls` (IndexError / ValueError, the latter after
+  the rows were written); `create_pipe(text_k=0)`, junction
   row written before geodata is rejected, missing controlled junction accepted, label-column docs. **Open findings:** a failed
   create leaves a new empty component table; `create_pressure_control` returns None silently.""",
 "C17": """* **As built (`props/c17.py`):** random sequences (1-6) of the ten toolbox operations on nets with every component; after each
